@@ -61,6 +61,8 @@ SeriesFails(ev) ==
 (* types; ev.fragmenter = the cached Fragmenter's list (projected like frags, keys and masses only).            *)
 KeyOf(f) == <<f.t, f.s, f.e, f.z, f.iso, f.loss6>>
 RulesOf(ev) == [ q \in 1..Len(ev.rules) |-> [cls |-> SeqToSet(ev.rules[q].cls), val |-> ev.rules[q].val6] ]
+(* a Fix value lies on the grid of p decimals (p <= 8) when its nano part is within 2e-9 of a multiple of 10^(9-p) *)
+OffGrid(m, p) == LET unit == Pow10(9 - p)  r == m[2] % unit IN p <= 8 /\ r > 2 /\ unit - r > 2
 HalfUnit(prec) == FAdd(Nano(100), IF prec = 0 THEN <<0, 500000000>> ELSE <<0, 5 * Pow10(8 - prec)>>)
 PrecSlack(prec) == IF prec < 0 THEN Micro(1) ELSE FAdd(Micro(1), IF prec = 0 THEN FInt(1) ELSE <<0, Pow10(9 - prec)>>)
 
@@ -98,6 +100,9 @@ FragmentFails(ev) ==
           THEN {"ion_mass_is_not_the_rounded_full_precision_mass"} ELSE {})
     \cup (IF ev.prec >= 0 /\ \E q \in 1..Len(ev.frags) : ~FWithin(ev.frags[q].mz, ev.frags[q].fullMz, HalfUnit(ev.prec))
           THEN {"ion_mz_is_not_the_rounded_full_precision_mz"} ELSE {})
+    (* ... and they ARE rounded: multiples of 10^-p *)
+    \cup (IF ev.prec >= 0 /\ \E q \in 1..Len(ev.frags) : OffGrid(ev.frags[q].mass, ev.prec) \/ OffGrid(ev.frags[q].mz, ev.prec)
+          THEN {"ion_mass_or_mz_not_rounded_to_the_precision"} ELSE {})
     (* the other return types are projections of the same list (compared as multisets) *)
     \cup (IF BagOfSeq(ev.masses) # BagOfSeq([ q \in 1..Len(ev.frags) |-> ev.frags[q].mass ]) THEN {"return_type_mass"} ELSE {})
     \cup (IF BagOfSeq(ev.mzs) # BagOfSeq([ q \in 1..Len(ev.frags) |-> ev.frags[q].mz ]) THEN {"return_type_mz"} ELSE {})
